@@ -5,7 +5,7 @@ def pos_stream(name, kinds, violation_kinds=None, npos_quick=600, npos_thorough=
     return dict(name=name, kind="oracle",
                 shards=lambda t: 16,
                 args=lambda t, s, sh, path: ["pos-stream", npos_quick if t == "quick" else npos_thorough, s * 1000 + sh, path, "1" if sh == 0 else "0"],
-                oracle_kinds=set(kinds) | {"spec-cannot-parse-fen", "move-not-pseudo-legal-in-spec"},
+                oracle_kinds=set(kinds) | {"spec-cannot-parse-fen", "move-not-pseudo-legal-in-spec", "not-a-legal-position"},
                 violation_kinds=set(violation_kinds or []),
                 timeout=3000, oracle_timeout=6000)
 
